@@ -29,6 +29,25 @@ def split_top(text):
     return out
 
 
+def api_alias_mismatches(view):
+    """[(impl trait, self type, line, named arguments, declared parameters)] for every `type X = Target<..>` of a
+    ContractApi / InterfaceApi / InterfaceMessagesApi impl whose argument names are not the parameters of `Target`
+    (an enum, struct or alias of the same `sv` module) in that type's own order."""
+    decl = {it["name"]: it["generics"]["params"] for it in view if it["k"] in ("enum", "struct", "type") and it["path"] == "::sv"}
+    out = []
+    for it in view:
+        if it["k"] != "impl" or not re.search(r"(ContractApi|InterfaceMessagesApi|InterfaceApi)\s*$", it.get("trait") or ""):
+            continue
+        for tl in it["types"]:
+            m_ = re.match(r"type (\w+) = (\w+) < (.*)> ;$", tl.strip())
+            if not m_ or m_.group(2) not in decl:
+                continue
+            names = [a.strip().split("::")[-1].strip() for a in split_top(m_.group(3)) if a.strip()]
+            if names != decl[m_.group(2)]:
+                out.append((it["trait"], it["self_ty"], tl, names, decl[m_.group(2)]))
+    return out
+
+
 def observe(ctx, progs, label):
     """Expands every program in-process; returns {prog name: {part id: {kind: [param names]}}} and checks them against the spec."""
     jobs = []
